@@ -38,3 +38,4 @@ alarm_filter = ep.alarm_filter
 
 def nontrivial(stream, case, out):
     return " X " in " " + ec.trace_of(out) and ep.nontrivial(stream, case, out)
+valid_case = ep.valid_case
